@@ -216,6 +216,9 @@ func checkC10(e *Env) {
 		}
 	})
 
+	// the concurrent flavour of this monitor (C12 is the full treatment)
+	concCalls := e.concurrentSmoke(drv, "C10", e.smokePool("C10", "chk"), e.pick(2, 12), e.pick(300, 1500))
+
 	// coverage of (language, word, form) triples whose spelling is non-trivial
 	covCount := map[string]string{}
 	total, got := 0, 0
@@ -233,21 +236,22 @@ func checkC10(e *Env) {
 		}
 	}
 	e.WriteEvidence("exploration", map[string]any{
-		"evaluations":                    stats.Ops,
-		"distinct_nontrivial":            nontrivial.Len(),
-		"rule":                           "a case is a pair (base, variant) whose NFKD forms are equal according to CPython (pairs failing this precondition are skipped and counted, never asserted): valid sentences containing every list word of every language at every word count, spelled in NFC, NFD, NFKC, NFKD, with every maximal single-code-point pre-image (full-width, ligature, precomposed, Hangul syllable, compatibility ideograph; first and random choice), mixed forms, joined by U+0020, U+3000 or another code point that normalises to U+0020; wrong-checksum and unknown-word sentences in the same spellings; random Unicode strings with their four normal forms and a random pre-image respelling; histories in one process in which a non-normalised spelling is asked under one language, then under another, each time followed by its NFKD spelling; non-trivial = the two strings differ bytewise; distinct by (base, variant, language)",
-		"samples":                        smp.List(),
-		"groups_by_kind":                 kinds.Map(),
-		"pairs_compared":                 pairs.Map(),
-		"pairs_skipped":                  skipped.Map(),
-		"verdicts":                       verdicts.Map(),
-		"word_form_coverage":             covCount,
-		"nontrivial_word_forms_compared": got,
-		"nontrivial_word_forms_possible": total,
-		"separators_used":                seps.Map(),
-		"word_counts":                    wordCounts.Map(),
-		"python_normalisations":          e.Py().Calls,
-		"children":                       stats.Children,
+		"evaluations":                      stats.Ops,
+		"distinct_nontrivial":              nontrivial.Len(),
+		"calls_repeated_under_concurrency": concCalls,
+		"rule":                             "a case is a pair (base, variant) whose NFKD forms are equal according to CPython (pairs failing this precondition are skipped and counted, never asserted): valid sentences containing every list word of every language at every word count, spelled in NFC, NFD, NFKC, NFKD, with every maximal single-code-point pre-image (full-width, ligature, precomposed, Hangul syllable, compatibility ideograph; first and random choice), mixed forms, joined by U+0020, U+3000 or another code point that normalises to U+0020; wrong-checksum and unknown-word sentences in the same spellings; random Unicode strings with their four normal forms and a random pre-image respelling; histories in one process in which a non-normalised spelling is asked under one language, then under another, each time followed by its NFKD spelling; non-trivial = the two strings differ bytewise; distinct by (base, variant, language)",
+		"samples":                          smp.List(),
+		"groups_by_kind":                   kinds.Map(),
+		"pairs_compared":                   pairs.Map(),
+		"pairs_skipped":                    skipped.Map(),
+		"verdicts":                         verdicts.Map(),
+		"word_form_coverage":               covCount,
+		"nontrivial_word_forms_compared":   got,
+		"nontrivial_word_forms_possible":   total,
+		"separators_used":                  seps.Map(),
+		"word_counts":                      wordCounts.Map(),
+		"python_normalisations":            e.Py().Calls,
+		"children":                         stats.Children,
 	}, []string{
 		"CPython unicodedata NFKD decides which pairs are equivalent (Unicode 14; assigned code points; non-starter runs <= 25)",
 		"only the accept/reject verdict is compared; error kinds and messages belong to C15",
